@@ -478,14 +478,17 @@ func TestReplay(t *testing.T) {
 	if err != nil {
 		t.Fatalf("harness: replay case does not build: %v", err)
 	}
-	v := runOracle(image, c.Filter)
-	if v.harness != nil {
-		t.Fatalf("harness: %v", v.harness)
+	// some failures depend on Go's randomised map iteration inside FilterImage: try a few times
+	for i := 0; i < 30; i++ {
+		v := runOracle(image, c.Filter)
+		if v.harness != nil {
+			t.Fatalf("harness: %v", v.harness)
+		}
+		r.Eval()
+		if v.key != "" {
+			r.Fail(t, v.key, v.msg, c)
+			return
+		}
 	}
-	r.Eval()
-	if v.key != "" {
-		r.Fail(t, v.key, v.msg, c)
-		return
-	}
-	fmt.Println("replay: oracle holds")
+	fmt.Println("replay: oracle holds (30 runs)")
 }
